@@ -1121,6 +1121,158 @@ func scaleLong(g *tr.G, n int, which int) {
 	b.emit(g, "long")
 }
 
+// scaleHistory: what a cache has been through, not what it holds (round 4).  The cache holds n entries
+// once, is drained to exactly `left` (0, sometimes 1 or 2) entries - by Clear, by Removes least recently used first /
+// most recently used first / in a permuted order, or by eviction (one Put whose value fills the limit exactly: for a moment the
+// store is empty) - and is then used as a small cache: a few entries, Gets of entries that are not the newest
+// (the heap moves elements), a Remove in the middle, a replacing Put on the oldest, Has of everything, an
+// ordered drain; Clear; the same once more.  Sizes: 1 with the limit n, or 2v (mode b1) with the limit 2n (+1),
+// where a value of n fills the limit and a Put of n-1 evicts all but one entry of the small cache in order.
+func scaleHistory(g *tr.G, n int, drain int, left int) {
+	unit := drain < 4 && g.R.Intn(3) == 0
+	var b *builder
+	if unit {
+		b = newBuilder(g.R, int64(n), "u").budget(g, n)
+	} else {
+		b = newBuilder(g.R, int64(2*n+g.R.Intn(2)), "b1").budget(g, n)
+	}
+	one := vseq{1, 0, 1}
+	lo := b.freshKeys(n)
+	fill := b.seq(tr.Pick(g.R, []byte{'a', 'a', 'd', 'r'}), lo, n, n)
+	b.add(macro{kind: 'p', ks: fill, vs: one})
+	b.add(macro{kind: 'l'})
+	b.add(macro{kind: 's'})
+	if left > n || drain == 0 {
+		left = 0
+	}
+	if drain >= 4 && left > 1 {
+		left = 1
+	}
+	if !b.affordDrain() {
+		b.tags["scale-history-cut-short-by-the-replay-budget"] = true
+		b.clear()
+		b.emit(g, "history")
+		return
+	}
+	switch drain {
+	case 0:
+		b.add(macro{kind: 'c'})
+		b.tags["scale-history-drained-by-clear"] = true
+	case 1: // least recently used first: in the order of the fill
+		ks := fill
+		ks.take = n - left
+		b.add(macro{kind: 'r', ks: ks})
+		b.tags["scale-history-drained-by-remove"] = true
+	case 2: // most recently used first (an ascending or descending fill backwards; a permuted one from the top key down)
+		pat := byte('d')
+		if fill.pat == 'd' {
+			pat = 'a'
+		}
+		b.add(macro{kind: 'r', ks: b.seq(pat, lo, n, n-left)})
+		b.tags["scale-history-drained-by-remove"] = true
+	case 3:
+		b.add(macro{kind: 'r', ks: b.seq('r', lo, n, n-left)})
+		b.tags["scale-history-drained-by-remove"] = true
+	default:
+		// by eviction: everything goes in one Put; the new entry is removed again (or stays: one entry left)
+		k := b.freshKeys(1)
+		b.add(macro{kind: 'p', ks: elist([]int{k}), vs: vseq{n, 0, 1}})
+		if left == 0 {
+			b.add(macro{kind: 'r', ks: elist([]int{k})})
+		}
+		b.tags["scale-history-drained-by-eviction"] = true
+	}
+	if b.n() == 0 {
+		b.tags["scale-history-drained-to-zero"] = true
+	}
+	for round := 0; round < 2; round++ {
+		b.add(macro{kind: 'l'})
+		b.add(macro{kind: 's'})
+		b.add(macro{kind: 'h', ks: elist([]int{lo, lo + n/2, lo + n - 1, b.fresh + 3})})
+		b.add(macro{kind: 'g', ks: elist([]int{lo + n/3, b.fresh + 4})})
+		m := g.R.Range(3, 40)
+		if m > n {
+			m = n
+		}
+		lo2 := b.freshKeys(m)
+		b.add(macro{kind: 'p', ks: b.seq('a', lo2, m, m), vs: one})
+		// Gets of entries that are not the newest: the oldest of the new ones, a middle one, the oldest again;
+		// then all over the heap.  What the drain left behind is not touched (a use would make it an ordinary
+		// entry again): it has to leave first when room is needed.
+		es := b.ref.ents[b.n()-m:]
+		b.add(macro{kind: 'g', ks: elist([]int{es[0][0], es[len(es)/2][0], es[0][0]})})
+		if b.n() == m {
+			b.touch()
+		} else {
+			b.add(macro{kind: 'l'})
+			b.add(macro{kind: 's'})
+			b.add(macro{kind: 'g', ks: b.seq('r', lo2, m, m/2+1)})
+			b.add(macro{kind: 'h', ks: elist([]int{b.ref.ents[0][0], b.fresh + 7})})
+		}
+		es = b.ref.ents[b.n()-m:]
+		b.add(macro{kind: 'r', ks: elist([]int{es[len(es)/2][0]})})
+		es = b.ref.ents[b.n()-m+1:]
+		if len(es) > 0 {
+			b.add(macro{kind: 'p', ks: elist([]int{es[0][0]}), vs: one})
+		}
+		b.add(macro{kind: 'h', ks: b.seq('a', lo2, m, m)})
+		b.add(macro{kind: 'g', ks: b.seq('r', lo2, m, m/2)})
+		if !unit && b.n() > 1 {
+			// a value of n-1 leaves room for one entry: everything else goes, least recently used first; the
+			// next Put has to evict the entry that stayed, not the one that has just arrived; then that one
+			b.add(macro{kind: 'p', ks: elist([]int{b.freshKeys(1)}), vs: vseq{n - 1, 0, 1}})
+			b.add(macro{kind: 'l'})
+			b.add(macro{kind: 'p', ks: b.seq('a', b.freshKeys(2), 2, 2), vs: one})
+		} else if unit && left > 0 && round == 0 && n <= 1100 {
+			// what the drain left behind is older than everything put since: filling up evicts it first
+			room := int(b.limit) - b.n()
+			if m := b.afford(room + left); m > 0 {
+				b.add(macro{kind: 'p', ks: b.seq('a', b.freshKeys(m), m, m), vs: one})
+			}
+		}
+		b.add(macro{kind: 'c'})
+		b.tags["scale-history-reuse-after-drain"] = true
+	}
+	b.add(macro{kind: 'l'})
+	b.add(macro{kind: 's'})
+	for _, t := range []int{64, 256, 1024, 1500, 2048} {
+		if n >= t {
+			b.tags[fmt.Sprintf("scale-history-peak>=%d", t)] = true
+		}
+	}
+	b.emit(g, "history")
+}
+
+// genHistoryLines: the capacity-history class at 1024 entries (all five ways to drain), at 1500 (by Remove and
+// by Clear or eviction), at 1024-1 and 1024+1 (one way each, which one turns with the seed; the thorough tier
+// takes every pair, and 2048-1..2048+1), and at a handful of smaller peaks anywhere in 2..600.
+func genHistoryLines(g *tr.G) {
+	r := g.R
+	sizes := []int{1023, 1024, 1025, 1500}
+	if g.Thorough() {
+		for _, n := range append(sizes, 2047, 2048, 2049) {
+			for d := 0; d < 5; d++ {
+				scaleHistory(g, n, d, (d+n)%3)
+			}
+		}
+	} else {
+		off := r.Intn(5)
+		// 1024: every way to drain; oldest-first Removes leave the one or two most recently used entries (the
+		// largest stamps), newest-first Removes nothing, permuted Removes 0..2
+		for d := 0; d < 5; d++ {
+			scaleHistory(g, 1024, d, []int{0, 1 + off%2, 0, off % 3, off % 2}[d])
+		}
+		// 1500: by Remove to exactly zero, and by Clear or by eviction; 1024-1, 1024+1: one way each
+		scaleHistory(g, 1500, 1+off%3, 0)
+		scaleHistory(g, 1500, []int{0, 4}[off%2], 0)
+		scaleHistory(g, 1023, off, tr.Pick(r, []int{0, 0, 1}))
+		scaleHistory(g, 1025, (off+2)%5, tr.Pick(r, []int{0, 0, 1}))
+	}
+	for i := 0; i < g.Scale(8, 120); i++ {
+		scaleHistory(g, r.Range(2, 600), r.Intn(5), tr.Pick(r, []int{0, 0, 0, 1, 2}))
+	}
+}
+
 var scaleScenarios = []func(*tr.G, int, int){scaleUnit, scaleHuge, scaleSized, scaleZero, scaleSomeZero, scaleBig}
 
 // genScale: caches of 2^k-1, 2^k, 2^k+1 entries.  Up to 2^8+1 every size runs every scenario.  Above, the
@@ -1163,6 +1315,8 @@ func genScale(g *tr.G) {
 	for i := 0; i < g.Scale(1, 6); i++ {
 		scaleLong(g, r.Range(100, g.Scale(300, 400)), 0)
 	}
+	// what the cache has been through: big once, drained to nothing, used again
+	genHistoryLines(g)
 	// a few sizes that are not next to a power of two
 	for i := 0; i < g.Scale(2, 12); i++ {
 		tr.Pick(r, scaleScenarios)(g, r.Range(300, g.Scale(700, 3000)), r.Intn(6))
